@@ -54,6 +54,11 @@ def scripts():
     # total blackout with data outstanding (PTO back-off), then close() / idle
     out["blackout:close_after_ptos"] = {"c": [W(0, 3000, True), W(4, 100, g=("t", 0.05)), CLOSE(g=("t", 2.0))],
                                         "s": [W(1, 3000, True)]}
+    # the client's address changes mid-connection (scripted NAT rebinding at 0.6 s) while it keeps talking
+    # every 0.5 s for longer than the idle period; then silence until the idle deadline
+    out["idle:migrated_chatty"] = {"c": [W(0, 100)] + [W(0, 100, g=("t", 0.5 * i)) for i in range(1, 10)],
+                                   "s": [W(1, 100, g=("rx", 0, 100 * i)) for i in range(1, 10, 3)]}
+    out["idle:migrated_then_quiet"] = {"c": [W(0, 100), W(0, 100, g=("t", 0.5)), W(0, 100, True, g=("t", 1.0))], "s": []}
     out["blackout:idle"] = {"c": [W(0, 3000, True), W(4, 100, g=("t", 0.05))], "s": [W(1, 3000, True)]}
     return out
 
@@ -72,6 +77,8 @@ def factory(sc):
         cfg.setdefault("chain", "bigchain")
     if name.startswith("idle"):
         cfg.setdefault("idle", 3.0)
+        if "migrated" in name:
+            cfg.setdefault("rebind_at", 0.6)
     elif name.startswith("blackout"):
         cfg.setdefault("idle", 8.0)
         cfg.setdefault("blackout_from", 0.045)
